@@ -13,7 +13,10 @@ import (
 // drive real nodes one event at a time. No existing code is changed.
 
 func (lh *WorkerLoop) VerifDeliver(msg *interfaces.ConsensusRawMessage) {
-	parsedMessage := interfaces.ToConsensusMessage(msg)
+	parsedMessage, err := interfaces.ParseConsensusMessage(msg)
+	if err != nil {
+		return
+	}
 	lh.logger.Debug("LHFLOW LHMSG WORKERLOOP RECEIVED %v from %v for H=%d V=%d", parsedMessage.MessageType(), parsedMessage.SenderMemberId(), parsedMessage.BlockHeight(), parsedMessage.View())
 	lh.filter.HandleConsensusRawMessage(msg)
 }
